@@ -132,7 +132,7 @@ class C17(Base):
                                                  "SingleDisk", "TwoLevel"):
                 cfg["N"] = rng.choice((0, 1, -1))
             if cfg["p"] and rng.random() < 0.2:
-                cfg["p"]["call"] = rng.choice(("np", "kw", "npkw"))
+                cfg["p"]["call"] = rng.choice(("np", "kw", "npkw", "pos"))
             if "uf" in cfg["p"] and rng.random() < 0.3:
                 cfg["p"]["costs_int"] = True
         passes = 0 if cfg["cls"] == "None" else 1
